@@ -18,6 +18,10 @@ import time
 TLA_CP = "/opt/veriftools/tla/tla2tools.jar:/opt/veriftools/tla/CommunityModules-deps.jar"
 
 # family -> (module, which configs exist)
+# wall-clock budget of one thorough safety run of one L2 module (breadth-first: what is explored is complete up
+# to the depth reached; the evidence says whether the run finished)
+THOROUGH_BUDGET_S = int(os.environ.get("VERIF_TLC_BUDGET_S", "900"))
+
 LIVE_PROPS = ("C01", "C20", "C04", "C05", "C06", "C07", "C08", "C09", "C10", "C11", "C12", "C13", "C14", "C15", "C19")
 
 FAMILY_MODULE = {
@@ -74,9 +78,21 @@ def cached_tlc(env, kind, mcmod, cfgfile, tag, **kw):
         except Exception:
             pass
     t0 = time.time()
-    rc, out = env["tlc"](mcmod, cfgfile, os.path.join(env["WORK"], "tlc_%s_%d" % (tag, os.getpid())), **kw)
+    budget = kw.pop("budget_s", None)
+    partial = False
+    if budget:
+        out, partial = budgeted_tlc(env, mcmod, cfgfile, os.path.join(env["WORK"], "tlc_%s_%d" % (tag, os.getpid())), budget, **kw)
+    else:
+        rc, out = env["tlc"](mcmod, cfgfile, os.path.join(env["WORK"], "tlc_%s_%d" % (tag, os.getpid())), **kw)
     gen, dist, ok, cov = parse_tlc(out)
-    res = dict(states=dist, transitions=gen, ok=ok, cov=cov, secs=round(time.time() - t0, 1), out_tail=out[-3000:])
+    if partial:
+        # stopped at the wall-clock budget: breadth-first exploration up to the depth reached, no error so far
+        pm = re.findall(r"Progress\((\d+)\) at [^:]+:\d+:\d+: ([\d,]+) states generated(?: \([^)]*\))?, ([\d,]+) distinct states found", out)
+        if pm:
+            gen, dist = int(pm[-1][1].replace(",", "")), int(pm[-1][2].replace(",", ""))
+        ok = "Error:" not in out and "violated" not in out
+    res = dict(states=dist, transitions=gen, ok=ok, cov=cov, secs=round(time.time() - t0, 1), out_tail=out[-3000:],
+               complete=not partial, depth_reached=(int(pm[-1][0]) if partial and pm else None))
     if kind == "gen":
         res["exported"] = [json.loads(unq(line)[4:]) for line in out.splitlines() if line.startswith('"VEC ')]
     if ok:
@@ -85,6 +101,27 @@ def cached_tlc(env, kind, mcmod, cfgfile, tag, **kw):
             json.dump(res, f)
         os.replace(tmp, cpath)
     return res, False
+
+
+def budgeted_tlc(env, module, cfgfile, metadir, budget_s, workers=1, xmx="12g", extra=None, timeout=None, deque=False):
+    """TLC under a wall-clock budget: (output, stopped_early)."""
+    envv = dict(os.environ, JAVA_TOOL_OPTIONS="-Xss1g")
+    cmd = ["java", "-XX:+UseParallelGC", "-Xmx" + xmx, "-cp", TLA_CP, "tlc2.TLC", "-workers", str(workers), "-metadir", metadir,
+           "-cleanup", "-noGenerateSpecTE", "-config", cfgfile] + (extra or []) + [module]
+    logp = metadir + ".log"
+    os.makedirs(os.path.dirname(logp), exist_ok=True)
+    stopped = False
+    with open(logp, "w") as lf:
+        p = subprocess.Popen(cmd, cwd=env["SPECS"], env=envv, stdout=lf, stderr=subprocess.STDOUT)
+        try:
+            p.wait(timeout=budget_s)
+        except subprocess.TimeoutExpired:
+            stopped = True
+            p.kill()
+            p.wait()
+    out = open(logp).read()
+    subprocess.run(["rm", "-rf", metadir, logp])
+    return out, stopped
 
 
 def parse_tlc(out):
@@ -308,10 +345,12 @@ def run_for_property(prop, tier, seed, plan, env):
         # ---- 1. model checking (safety) --------------------------------------------------
         cfgfile = os.path.join(SPECS, cfgs["mc_" + tier])
         r, cached = cached_tlc(env, "mc", mcmod, cfgfile, "mc_%s_%s" % (prop, mod), workers=max(2, ncpu - 2), xmx="12g",
-                               extra=["-coverage", "1"], timeout=7200, deque=False)
+                               extra=["-coverage", "1"], timeout=7200, deque=False,
+                               budget_s=(THOROUGH_BUDGET_S if tier == "thorough" else None))
         gen, dist, ok, cov = r["transitions"], r["states"], r["ok"], r["cov"]
         res["models"].append(dict(module=mod, config=os.path.basename(cfgfile), kind="safety", states=dist, transitions=gen,
-                                  ok=ok, action_coverage=cov, secs=r["secs"], reused_from_cache=cached))
+                                  ok=ok, action_coverage=cov, secs=r["secs"], reused_from_cache=cached,
+                                  complete=r.get("complete", True), depth_reached=r.get("depth_reached")))
         res["states"] += dist
         res["transitions"] += gen
         if not ok:
@@ -322,9 +361,10 @@ def run_for_property(prop, tier, seed, plan, env):
             raise ToolError("TLC reports an error in %s (%s); see %s\n%s" % (mod, os.path.basename(cfgfile), path, r["out_tail"][-1500:]))
         # vacuity: every action of the module must have been taken
         dead = [a for a, nn in cov.items() if nn == 0 and a not in ("Init",)]
-        if dead:
+        if dead and r.get("complete", True):
             raise ToolError("vacuity: actions never taken in %s: %s" % (mod, dead))
-        res["exhaustive"] = True
+        res["exhaustive"] = res.get("exhaustive_all", True) and r.get("complete", True)
+        res["exhaustive_all"] = res["exhaustive"]
         # ---- 2. liveness under fairness --------------------------------------------------
         lcfg = cfgs.get("live_" + tier)
         if lcfg and prop in LIVE_PROPS:
@@ -340,7 +380,8 @@ def run_for_property(prop, tier, seed, plan, env):
                 raise ToolError("TLC reports a liveness error in %s; see %s\n%s" % (mod, path, r["out_tail"][-1500:]))
         # ---- 3. export behaviours --------------------------------------------------------
         gcfg = os.path.join(SPECS, cfgs["gen_" + tier])
-        r, cached = cached_tlc(env, "gen", mcmod, gcfg, "gen_%s_%s" % (prop, mod), workers=1, xmx="8g", timeout=7200, deque=False)
+        r, cached = cached_tlc(env, "gen", mcmod, gcfg, "gen_%s_%s" % (prop, mod), workers=1, xmx="8g", timeout=7200, deque=False,
+                               budget_s=(600 if tier == "thorough" else None))
         if not r["ok"]:
             raise ToolError("TLC export run failed for %s:\n%s" % (mod, r["out_tail"][-1500:]))
         exported = r["exported"]
@@ -366,6 +407,8 @@ def run_for_property(prop, tier, seed, plan, env):
         cap = None
         if tier == "quick" and len(modules) > 2:
             cap = 5000
+        elif tier == "thorough":
+            cap = 40000 if len(modules) > 2 else 120000
         jobs = []
         for b, vs in by_build.items():
             if cap and len(vs) > cap:
